@@ -336,14 +336,15 @@ type World struct {
 	nio     int
 	Timeout time.Duration
 	// lock holders: lock path -> set of proc idx (pointer identity via map)
-	holders map[string]map[*Proc]int // value: fd
-	OnPost  func(w *World, p *Proc, e *Ev)
-	TraceOn bool
-	TraceLn []string
-	IlvHash hash.Hash // hash of the sequence of context switches (proc label, op class)
-	lastRun int
-	Blocks  int // number of blocking lock waits observed
-	GoMax   string
+	holders      map[string]map[*Proc]int // value: fd
+	OnPost       func(w *World, p *Proc, e *Ev)
+	TraceOn      bool
+	TraceLn      []string
+	IlvHash      hash.Hash // hash of the sequence of context switches (proc label, op class)
+	lastRun      int
+	Blocks       int // number of blocking lock waits observed
+	GoMax        string
+	killAtStdout bool // crash sweeps: kill the process when it is about to write its reply
 }
 
 var worldCounter atomic.Int64
@@ -485,7 +486,7 @@ func (w *World) Start(idx int, spec ProcSpec) *Proc {
 	p.State = psRunning
 	w.Seq++
 	p.InvokeSeq = w.Seq
-	w.note("start p%d %s", idx, strings.Join(spec.Argv, " "))
+	w.note("start p%d %s", idx, strings.ReplaceAll(strings.Join(spec.Argv, " "), w.Root, "$W"))
 	w.advance(p)
 	return p
 }
@@ -570,7 +571,8 @@ func (w *World) reap(p *Proc) {
 	if p.ExitCode == 97 {
 		harnessf("interposer died in p%d: %s", p.Idx, p.Stderr)
 	}
-	w.note("exit p%d code=%d out=%x err=%x", p.Idx, p.ExitCode, sha256.Sum256(p.Stdout), sha256.Sum256(p.Stderr))
+	norm := func(b []byte) []byte { return bytes.ReplaceAll(b, []byte(w.Root), []byte("$W")) }
+	w.note("exit p%d code=%d out=%x err=%x", p.Idx, p.ExitCode, sha256.Sum256(norm(p.Stdout)), sha256.Sum256(norm(p.Stderr)))
 }
 
 // Kill terminates a parked (or running) process with SIGKILL.
@@ -744,6 +746,14 @@ func (w *World) advance(p *Proc) {
 				p.NVis++
 				p.Pend = e
 				p.State = psParked
+				return
+			}
+			if w.killAtStdout && e.Op == "write" && e.Fd == 1 {
+				w.note("kill p%d at reply", p.Idx)
+				p.State = psKilled
+				p.cmd.Process.Kill()
+				w.reap(p)
+				w.Count.Inc("fault.kill")
 				return
 			}
 			e.Act = w.ambient(p, e)
